@@ -23,7 +23,8 @@ META = {
         "+ 20000 for every n, and work(2n)/work(n) <= 2.6 at the two largest n; a family exceeding the 3e6-operation cap is cut off "
         "and reported.  Runs of 64..512 (1024) compound statements of 9 kinds are measured the same way, and 'late' families put a nest of "
         "depth 4..12 (16) after a prefix of >= 10000 tokens and bound the work the nest ADDS (total minus the same input at depth 1) by the same per-token "
-        "bound.  work = getnext+peek+reset counts + every element handed out by the tokenizer's token cache (index, slice, iteration, copy: a "
+        "bound.  Every fixed family is also measured with verbose=True (output discarded; sizes up to 16 / 64): tracing must not change the work.  "
+        "work = getnext+peek+reset counts + every element handed out by the tokenizer's token cache (index, slice, iteration, copy: a "
         "counting list installed in the Tokenizer subclass).  non-trivial = largest instance has >= 60 tokens and nesting >= 16 (or >= 64 "
         "items for breadth families); distinct by pattern."
     ),
@@ -120,14 +121,22 @@ def counting_tokenizer():
     return _CT
 
 
-def measure(src: str, cap: int = CAP):
+class _Discard(io.TextIOBase):
+    def write(self, s):
+        return len(s)
+
+
+def measure(src: str, cap: int = CAP, verbose: bool = False):
     """(work, tokens, verdict) ; verdict in ok/syn/tok/CAP/recursion/hang/<Exception>"""
+    import contextlib
+
     m = repo_modules()
-    tok = counting_tokenizer()(m["T"].generate_tokens(io.StringIO(src).readline))
-    tok.cap = cap
-    p = m["P"].XonshParser(tok)
+    with contextlib.redirect_stdout(_Discard()):
+        tok = counting_tokenizer()(m["T"].generate_tokens(io.StringIO(src).readline), verbose=verbose)
+        tok.cap = cap
+        p = m["P"].XonshParser(tok, verbose=verbose)
     try:
-        with watchdog(120):
+        with watchdog(120), contextlib.redirect_stdout(_Discard()):
             p.parse("file")
         v = "ok"
     except Cap:
@@ -260,6 +269,23 @@ FIXED = {
     "nested_def": lambda n: "".join(" " * i + "def f():\n" for i in range(n)) + " " * n + "pass\n",
     "nested_class": lambda n: "".join(" " * i + "class A:\n" for i in range(n)) + " " * n + "pass\n",
     "nested_try": lambda n: "".join(" " * i + "try:\n" for i in range(n)) + " " * n + "pass\n" + "".join(" " * i + "finally:\n" + " " * (i + 1) + "pass\n" for i in range(n - 1, -1, -1)),
+    "nested_try_except": lambda n: "".join(" " * i + "try:\n" for i in range(n)) + " " * n + "pass\n" + "".join(" " * i + "except E:\n" + " " * (i + 1) + "pass\n" for i in range(n - 1, -1, -1)),
+    "nested_try_except_body": lambda n: "".join(" " * i + "try:\n" + " " * (i + 1) + "a = 1\n" for i in range(n)) + "".join(" " * i + "except E as e:\n" + " " * (i + 1) + "b = 2\n" + " " * i + "else:\n" + " " * (i + 1) + "c\n" for i in range(n - 1, -1, -1)),
+    "nested_if_else": lambda n: "".join(" " * i + "if a:\n" for i in range(n)) + " " * n + "pass\n" + "".join(" " * i + "else:\n" + " " * (i + 1) + "pass\n" for i in range(n - 1, -1, -1)),
+    "nested_for_else": lambda n: "".join(" " * i + "for x in y:\n" for i in range(n)) + " " * n + "pass\n" + "".join(" " * i + "else:\n" + " " * (i + 1) + "pass\n" for i in range(n - 1, -1, -1)),
+    "nested_while_with": lambda n: "".join(" " * (2 * i) + "while a:\n" + " " * (2 * i + 1) + "with b as c:\n" for i in range(n)) + " " * (2 * n) + "pass\n",
+    "nested_match": lambda n: "".join(" " * (2 * i) + "match v:\n" + " " * (2 * i + 1) + "case [a, *_]:\n" for i in range(n)) + " " * (2 * n) + "pass\n",
+    "nested_async": lambda n: "async def f():\n" + "".join(" " * (i + 1) + "async with a as b:\n" for i in range(n)) + " " * (n + 1) + "await c\n",
+    # ... and the same nests with something wrong inside or after them (second, diagnostic pass over the whole nest)
+    "nested_try_except_bad_inside": lambda n: "".join(" " * i + "try:\n" for i in range(n)) + " " * n + "x = = 1\n" + "".join(" " * i + "except E:\n" + " " * (i + 1) + "pass\n" for i in range(n - 1, -1, -1)),
+    "nested_try_except_bad_after": lambda n: "".join(" " * i + "try:\n" for i in range(n)) + " " * n + "pass\n" + "".join(" " * i + "except E:\n" + " " * (i + 1) + "pass\n" for i in range(n - 1, -1, -1)) + "x = = 1\n",
+    "nested_try_except_bad_handler": lambda n: "".join(" " * i + "try:\n" + " " * (i + 1) + "a\n" for i in range(n)) + "".join(" " * i + "except E:\n" + " " * (i + 1) + ("b c\n" if i == 0 else "b\n") for i in range(n - 1, -1, -1)),
+    "nested_if_else_bad_after": lambda n: "".join(" " * i + "if a:\n" for i in range(n)) + " " * n + "pass\n" + "".join(" " * i + "else:\n" + " " * (i + 1) + "pass\n" for i in range(n - 1, -1, -1)) + "f(a b)\n",
+    "nested_for_else_bad_inside": lambda n: "".join(" " * i + "for x in y:\n" for i in range(n)) + " " * n + "x y\n" + "".join(" " * i + "else:\n" + " " * (i + 1) + "pass\n" for i in range(n - 1, -1, -1)),
+    "nested_def_bad_inside": lambda n: "".join(" " * i + "def f(a):\n" for i in range(n)) + " " * n + "return = 1\n",
+    "nested_class_bad_after": lambda n: "".join(" " * i + "class A:\n" for i in range(n)) + " " * n + "pass\nimport\n",
+    "nested_match_bad_inside": lambda n: "".join(" " * (2 * i) + "match v:\n" + " " * (2 * i + 1) + "case [a, *_]:\n" for i in range(n)) + " " * (2 * n) + "a b\n",
+    "nested_with_bad_inside": lambda n: "".join(" " * i + "with a as b:\n" for i in range(n)) + " " * n + "del 1\n",
     "nested_with_macro": lambda n: "".join(" " * i + "if a:\n" for i in range(n)) + " " * n + "with! a:\n" + " " * (n + 1) + "b c\n",
     "genexp_call": lambda n: "f(" * n + "x for x in y" + ")" * n + "\n",
     "walrus": lambda n: "(a:=" * n + "1" + ")" * n + "\n",
@@ -361,11 +387,11 @@ def check_late(rec, case):
             return
 
 
-def run_family(builder, ns, cap=CAP):
+def run_family(builder, ns, cap=CAP, verbose=False):
     rows = []
     for n in ns:
         src = builder(n)
-        w = measure(src, cap)
+        w = measure(src, cap, verbose)
         rows.append((n, *w))
         if w[2] in ("CAP", "recursion", "hang"):
             break
@@ -405,17 +431,22 @@ def check(rec, case):
         breadth = False
         invalid_tail = bool(tail)
     ns = sizes(thorough, breadth, case.get("name", ""))
-    rows = run_family(builder, ns, LONG_CAP if case.get("name") in LONG_RUNS else CAP)
+    verbose = bool(case.get("verbose"))
+    if verbose:  # tracing must not change the amount of parsing work (it only prints): same bounds, smaller sizes
+        ns = tuple(n for n in ns if n <= (64 if breadth else 16))
+    rows = run_family(builder, ns, LONG_CAP if case.get("name") in LONG_RUNS else CAP, verbose)
     largest = rows[-1]
     verdicts = {r[3] for r in rows}
     decided = verdicts - {"CAP", "hang", "recursion"}
     klass = "valid" if decided <= {"ok"} and decided else ("invalid" if decided else "undecided")
     nt = largest[2] >= 60 and largest[0] >= (64 if breadth else 16)
-    labels = [f"class:{klass}", f"kind:{case.get('skind', 'fixed')}"]
+    labels = [f"class:{klass}", f"kind:{case.get('skind', 'fixed')}"] + (["option:verbose"] if verbose else [])
     if case["kind"] == "pattern":
         for u in unit:
             labels.append(f"wrapper:{u[0].strip()}…{u[1].strip()}")
-    rec.case(case, nt, labels=labels, key=(case.get("name"), case.get("skind"), case.get("unit"), case.get("core"), case.get("tail")))
+    if verbose:
+        nt = largest[2] >= 30 and largest[0] >= (64 if breadth else 16)
+    rec.case(case, nt, labels=labels, key=(case.get("name"), case.get("skind"), case.get("unit"), case.get("core"), case.get("tail"), verbose))
     if "recursion" in verdicts and len(rows) <= 2:
         rec.inconclusive["recursion-limit-before-n=16"] += 1
     v = verdict(rows)
@@ -425,7 +456,7 @@ def check(rec, case):
             group = "match" if case["name"].startswith("match") else case["name"]
         else:
             group = case["skind"] + ":" + ("bracket" if any(BRACKET_CHARS & set(u[0]) for u in unit) else "nobracket")
-        rec.fail(dict(case, klass=klass), f"{v[0]}:{klass}:{group}", detail)
+        rec.fail(dict(case, klass=klass), f"{v[0]}:{klass}:{group}" + (":verbose" if verbose else ""), detail)
 
 
 def pattern_from(rnd):
@@ -445,6 +476,8 @@ SHRINK_FIELDS = ()
 def search(rec, ctx):
     for name in ctx.shard(sorted(FIXED)):
         check(rec, {"kind": "fixed", "name": name, "thorough": ctx.thorough})
+    for name in ctx.shard(sorted(n for n in FIXED if n not in LONG_RUNS)[::-1]):
+        check(rec, {"kind": "fixed", "name": name, "thorough": ctx.thorough, "verbose": True})
     late = [(p, n) for p in sorted(PREFIXES) for n in sorted(LATE)]
     if not ctx.thorough:
         late = [x for x in late if x[0] == "assignments" and x[1] in ("late_nested_if", "late_tuple_target", "late_match_seq", "late_brackets", "late_bad_paren", "late_subproc")]
